@@ -24,9 +24,10 @@ for f in sorted(glob.glob("/tmp/wt/verify_report*.txt")):
             verify[parts[1]] = line.strip()[len("RESULT "):]
 table = []
 for d in sorted(glob.glob("/tmp/wt/out/C*/m*")):
-    prop = d.split("/")[-2]
-    mid = "%s-%s" % (prop, d.split("/")[-1])
-    key = "%s/%s" % (prop, d.split("/")[-1])
+    pdir = d.split("/")[-2]
+    prop = re.search(r"C\d\d", pdir).group(0)
+    mid = "%s-%s" % (pdir, d.split("/")[-1])
+    key = "%s/%s" % (pdir, d.split("/")[-1])
     res = rows.get(key, [])
     v = verify.get(d, "")
     dead = "demo_mut_pure=0" in v
@@ -41,7 +42,7 @@ for d in sorted(glob.glob("/tmp/wt/out/C*/m*")):
     notes = open(os.path.join(d, "notes.md")).read() if os.path.exists(os.path.join(d, "notes.md")) else ""
     caught = [(p, r) for p, r in res if "exit=1" in r]
     meta = {
-        "property": prop[:3],
+        "property": prop,
         "origin": "written by an independent sub-agent that was given only the property text and a scratch worktree (nothing from /verif)",
         "needs_to_manifest": notes.strip()[:1200],
         "ported": os.path.exists(os.path.join(d, "patch.orig.diff")),
